@@ -893,6 +893,31 @@ func (s *skel) floatConst(name, lean string) {
 	s.facts = append(s.facts, fact{Name: s.pi.pkg.Name() + "." + name, Kind: "const", Pos: relline(o.Pos()), Lean: "S2.Generated." + s.ns + "." + lean, Sha256: sha(o.Val().ExactString())})
 }
 
+// callArgConst emits the float64 bit pattern of the (constant) first argument of the unique call of method `sel`
+// inside function `key` (the margin of Cell.ContainsPoint); a non-constant argument or a second call is fatal.
+func (s *skel) callArgConst(key, sel, lean string) {
+	fd := findFunc(s.pi, key)
+	var found []*ast.CallExpr
+	ast.Inspect(fd.Body, func(n ast.Node) bool {
+		if c, ok := n.(*ast.CallExpr); ok {
+			if se, ok := c.Fun.(*ast.SelectorExpr); ok && se.Sel.Name == sel {
+				found = append(found, c)
+			}
+		}
+		return true
+	})
+	if len(found) != 1 || len(found[0].Args) != 1 {
+		fatal(fd.Pos(), "%s: expected exactly one call of %s with one argument, found %d", key, sel, len(found))
+	}
+	arg := found[0].Args[0]
+	tv, ok := s.pi.info.Types[arg]
+	if !ok || tv.Value == nil {
+		fatal(arg.Pos(), "%s: the argument of %s is not a constant expression", key, sel)
+	}
+	fmt.Fprintf(s.out, "/-- %s: argument of `%s` in %s: `%s` = %s -/\ndef %s : UInt64 := 0x%016x\n\n", relline(arg.Pos()), sel, key, oneLine(arg), tv.Value.String(), lean, f64bits(arg.Pos(), tv.Value))
+	s.facts = append(s.facts, fact{Name: s.pi.pkg.Name() + "." + key + "." + sel, Kind: "const", Pos: relline(arg.Pos()), Lean: "S2.Generated." + s.ns + "." + lean, Sha256: sha(tv.Value.ExactString())})
+}
+
 func genCell(ld *loader, facts *[]fact, files map[string]string) {
 	pi, err := ld.load(modPrefix + "s2")
 	if err != nil {
@@ -901,6 +926,7 @@ func genCell(ld *loader, facts *[]fact, files map[string]string) {
 	s := &skel{pi: pi, out: &bytes.Buffer{}, ns: "CellDistFns", known: map[string]knownFn{}, strict: true}
 	s.out.WriteString(cellPrelude)
 	s.floatConst("dblEpsilon", "dblEpsilon_bits")
+	s.callArgConst("Cell.ContainsPoint", "ExpandedByMargin", "ContainsPoint_margin_bits")
 	for _, k := range []string{"edgeDistance", "Cell.vertexChordDist2", "Cell.uEdgeIsClosest", "Cell.vEdgeIsClosest", "Cell.distanceInternal",
 		"Cell.ContainsPoint", "Cell.Distance", "Cell.BoundaryDistance"} {
 		s.extract(k, strings.TrimPrefix(k, "Cell."))
